@@ -129,9 +129,10 @@ example : ∃ (i : Inp ℚ) (a : Alloc ℚ), 2 ≤ i.nmonths ∧ PhysFeasible i 
 
 `PhysFeasibleFeed i a`: the supply clauses of `PhysFeasible` without the obligation to use stocks
 up; feed and biofuel totals within the ceilings `maxFeed`/`maxBiofuel` and never above the month
-before; people's consumption of each of the six LP foods pinned inside the tolerance band around
+before; people's consumption of each of the LP foods pinned inside the tolerance band around
 what the human-maximising round gave them (`Pinned`: ±0.01 % below 10 million people, ±0.001 %
-otherwise — exactly `pinnedRows`); feed/biofuel share caps of the resilient foods relative to
+otherwise — exactly `pinnedRows`), seaweed from below only (`PinnedLower`, `pinnedRowsLower`: since
+the repair of C16 the row `Seaweed_Max_Requirement` no longer exists); feed/biofuel share caps of the resilient foods relative to
 `i.feed`/`i.biofuel` as the code has them; no percent-fed variable, no human intake caps.
 `feedValue i a = 2/3·Σ feed + Σ biofuel / 3` is what the round maximises. -/
 
